@@ -466,6 +466,11 @@ def run(ctx):
     ctx.rule("R8.interleave", "wait_getput hands the requests on sorted, with the interleaved flag exact (bounded)")
     ni = r8interleave.check(ctx, ctx.need_fn(wprog, "wait_getput"), "R8.interleave")
     ctx.require(ni >= 1000, "R8.interleave: only %d request lists evaluated" % ni)
+    from rules import r8recsplit
+    ctx.rule("R8.recsplit", "ncmpio_add_record_requests: sub-request r addresses record start + r*stride, one record, own buffer slice (bounded)")
+    gprog = ctx.program(names=["ncmpio_i_getput.c"])
+    nr = r8recsplit.check(ctx, ctx.need_fn(gprog, "ncmpio_add_record_requests"), "R8.recsplit")
+    ctx.require(nr >= 90, "R8.recsplit: only %d requests evaluated" % nr)
     from rules import r8merge
     ctx.rule("R8.readmerge", "merge_requests, read form: after the read through the merged segments and the copies the function "
              "records, every get request's buffer holds all of its file bytes, also where requests overlap (bounded)")
